@@ -213,6 +213,24 @@ def eval_fixed(case):
                     viols.append({'kind': 'gmt-plus-h-sign', 'string': s, 'posix_offset': flag, 'got': got, 'expected': exp})
             except Exception as e:
                 viols.append({'kind': 'valid-string-rejected', 'string': s, 'zone_class': 'tzstr', 'error': repr(e)[:100]})
+    elif kind == 'tzrange-spellings':
+        # the offsets of a tzrange may be given as seconds or as timedeltas, in any mixture
+        _, sh = case
+        p = pm.make_spec(dict(sh))
+        ref_zone = pm.tzrange_for(p)
+        td = D.timedelta
+        for a, b in ((p.stdoff, td(seconds=p.dstoff)), (td(seconds=p.stdoff), p.dstoff), (td(seconds=p.stdoff), td(seconds=p.dstoff))):
+            n += 1
+            try:
+                z = tz.tzrange(p.std, a, p.dst, b, pm.rule_delta(p.srule, pm.std_tod(p, 'start')), pm.rule_delta(p.erule, pm.std_tod(p, 'end')))
+                got = [answer(z, u) for u in probes]
+            except Exception as e:
+                viols.append({'kind': 'valid-string-rejected', 'string': pm.spec_string(p), 'zone_class': 'tzrange', 'error': repr(e)[:100],
+                              'offset_spellings': [type(a).__name__, type(b).__name__]})
+                continue
+            if got != [answer(ref_zone, u) for u in probes]:
+                viols.append({'kind': 'rule-zone-disagrees', 'string': pm.spec_string(p), 'zone_class': 'tzrange',
+                              'offset_spellings': [type(a).__name__, type(b).__name__], 'got': got[:2]})
     elif kind == 'name-only':
         # A name without an offset: the statement leaves open whether that is a fixed-offset zone or a malformed
         # string, but not that some other exception escapes or that the result has daylight time.
@@ -273,7 +291,8 @@ def run(ctx):
             if valid[i - 1] in ',/.:+-' and valid[:i] not in cut:
                 cut.append(valid[:i])
     fixed = [('fixed',) + f for f in FIXED] + [('gmt',) + g for g in GMTLIKE] + [('malformed', m) for m in MALFORMED + cut] + \
-            [('name-only', nm) for nm in ('UTC', 'GMT', 'EST', 'Z', 'utc', 'UT')]
+            [('name-only', nm) for nm in ('UTC', 'GMT', 'EST', 'Z', 'utc', 'UT')] + \
+            [('tzrange-spellings', tuple(sorted(sh.items()))) for sh in ({}, {'offsets': (19800, 1800)}, {'south': True})]
     ctx.explore('fixed-gmt-malformed', fixed, 'eval_fixed', serial=True)
     ctx.coverage_extra.update({
         'reference_crosscheck': ctx.counts['reference_vs_glibc_mismatch'],
